@@ -2,6 +2,7 @@
 repeat/shuffle value skeletons. DESIGN.md section 4, C12."""
 import re
 from .common import *
+from cpv.ceval import Evaluator, Unknown
 
 CLS = "CommandLineArguments"
 UNIT = "src/CppUTest/CommandLineArguments.cpp"
@@ -154,20 +155,34 @@ def check(ctx, run):
         lits = [lit_of_simplestring(h, h.args(c)[3]) for c in calls_to(prog, h, CLS + "::getParameterField") if len(h.args(c)) == 4]
         if lits != [opt]:
             why.append("handler slices the value with %r, the dispatch literal is %r" % (lits, opt))
-        for p in enumerate_paths(h):
-            names = [(prog.callee_name(h, c) or "").split("::")[-1] for c in path_calls(prog, h, p)]
-            if (names.count("strictMatching") == 1) != (s == "s") or names.count("strictMatching") > 1:
-                why.append("strictMatching called %d times for %s" % (names.count("strictMatching"), opt))
-            if (names.count("invertMatching") == 1) != (x == "x") or names.count("invertMatching") > 1:
-                why.append("invertMatching called %d times for %s" % (names.count("invertMatching"), opt))
-            asg = [l for l, r, n in assignments(h, p)]
-            want = "groupFilters_" if lst == "g" else "nameFilters_"
-            if asg != [want]:
-                why.append("pushes on %s, expected %s" % (asg, want))
-            else:
-                rr = [render(h, r) for l, r, n in assignments(h, p)][0]
-                if not re.match(r"^\w+->add\(%s\)$" % want, rr):
-                    why.append("list update is %s" % rr)
+        # the handler folded: which filter object it creates, how it is modified and where it is pushed
+        log = []
+        GL, NL = 500, 600
+        ev = Evaluator(prog, h, env=dict({"groupFilters_": GL, "nameFilters_": NL}, **{q["name"]: 3 for q in h.params}),
+                       calls=string_hooks({CLS + "::getParameterField": lambda *a_: ("str", "value"),
+                                           "TestFilter::strictMatching": lambda *a_: (log.append(("strict", a_[0])), 0)[1],
+                                           "TestFilter::invertMatching": lambda *a_: (log.append(("invert", a_[0])), 0)[1],
+                                           "TestFilter::add": lambda *a_: (log.append(("add", a_[0], a_[1])), a_[0])[1]}))
+        ev.pass_object = True
+        try:
+            ev.run_blocks(h.entry, max_steps=400)
+        except Unknown as u:
+            run.broke("C12.R2: handler %s cannot be folded: %s" % (h.qn, u))
+            continue
+        news = [t for t in ev.trace if t[0].startswith("new TestFilter")]
+        if len(news) != 1 or news[0][1][1:] != [("str", "value")]:
+            why.append("creates %d filters from %s; expected one from the option's value" % (len(news), [t[1][1:] for t in news]))
+        else:
+            obj = news[0][1][0]
+            ns, ni = log.count(("strict", obj)), log.count(("invert", obj))
+            if ns != (1 if s == "s" else 0) or len([x for x in log if x[0] == "strict"]) != ns:
+                why.append("strictMatching called %d times for %s" % (len([x for x in log if x[0] == "strict"]), opt))
+            if ni != (1 if x == "x" else 0) or len([x_ for x_ in log if x_[0] == "invert"]) != ni:
+                why.append("invertMatching called %d times for %s" % (len([x_ for x_ in log if x_[0] == "invert"]), opt))
+            wl, ol = ("groupFilters_", "nameFilters_") if lst == "g" else ("nameFilters_", "groupFilters_")
+            old = GL if lst == "g" else NL
+            if [x_ for x_ in log if x_[0] == "add"] != [("add", obj, old)] or ev.env.get(wl) != obj or ev.env.get(ol) != (NL if lst == "g" else GL):
+                why.append("the new filter is not pushed once in front of %s (adds %s, lists now %s / %s)" % (wl, [x_ for x_ in log if x_[0] == "add"], ev.env.get("groupFilters_"), ev.env.get("nameFilters_")))
         run.ob("R2", "filter option %s -> %s" % (opt, h.name), h.site, not why, witness=why or "literal, modifiers and list agree", what="; ".join(why))
     for opt, (strict, excl) in DOT_OPTS.items():
         then = branch_of.get(("prefix", opt))
@@ -216,23 +231,27 @@ def check(ctx, run):
         run.ob("R2", "option %s -> %s(ac_, av_, i)" % (opt, hname), parse.site, ok, witness=[render(parse, c) for c in cs])
     so = prog.fn(CLS + "::setOutputType")
     run.analysed(so)
-    rows = {}
-    for p in enumerate_paths(so):
-        asg = [(l, render(so, r)) for l, r, n in assignments(so, p) if l == "outputType_"]
-        rv = const_value(so, so.node(p.ret.get("value"))) if p.ret is not None else None
-        lits = []
-        for k, v, b, cn in p.decisions:
-            m = re.match(r'^\(SimpleString\("(\w+)"\) == outputType\)$', k)
-            if m and v:
-                lits.append(m.group(1))
-        for l in lits[-1:]:
-            rows[l] = (asg, rv)
-        if not lits and asg:
-            rows["<none>"] = (asg, rv)
+    kinds = {e["name"]: e["v"] for en in prog.enums.values() for e in en["enumerators"] if e["name"].startswith("OUTPUT_")}
+
+    def fold_output(text):
+        ev = Evaluator(prog, so, env={"outputType_": 99, so.params[0]["name"]: 3, so.params[1]["name"]: 7, so.params[2]["name"]: 1},
+                       calls=string_hooks({CLS + "::getParameterField": lambda *a_: ("str", text)}))
+        ev.pass_object = True
+        ev.run_blocks(so.entry, max_steps=400)
+        return getattr(ev, "ret", None), ev.env.get("outputType_")
+    folded = {}
+    try:
+        for lit in list(OUTPUT_KINDS) + ["", "xml", "Junit", "junit ", "normal2"]:
+            folded[lit] = fold_output(lit)
+    except Unknown as u:
+        run.broke("C12.R2: setOutputType cannot be folded: %s" % u)
     for lit, en in OUTPUT_KINDS.items():
-        got = rows.get(lit)
-        ok = got is not None and got[0] == [("outputType_", en)] and got[1] == 1
+        got = folded.get(lit)
+        ok = got is not None and got == (1, kinds.get(en))
         run.ob("R2", "output kind %s -> %s, accepted" % (lit, en), so.site, ok, witness=got)
+    rows = {"<none>": [(k, v) for k, v in folded.items() if k not in OUTPUT_KINDS and v != (0, 99)]}
+    if not rows["<none>"]:
+        del rows["<none>"]
     run.ob("R2", "no assignment of the output kind without a matching literal", so.site, "<none>" not in rows, witness=rows.get("<none>"))
     for g, en in (("isEclipseOutput", "OUTPUT_ECLIPSE"), ("isJUnitOutput", "OUTPUT_JUNIT"), ("isTeamCityOutput", "OUTPUT_TEAMCITY")):
         f = prog.fn("%s::%s" % (CLS, g))
